@@ -32,7 +32,10 @@ RULE = ("(a)+(b): Hypothesis draws well-formed definition closures (vlib.defgen.
         "(vlib.defgen_hist): compiler_options sections in IMPORTED files with alignment switches that differ from the options in force, a "
         "compiler_options section in the root file (consistent with the options in force - then `python -m pyrtma.compile` without switches is a "
         "further compilation that must give the same bytes and its combined YAML is the one recompiled - or arbitrary, compile() ignores it), one "
-        "array length written as an expression of > 90 columns with 2-3 blanks around the operators; one closure in five is a model-free closure "
+        "array length written as an expression of > 90 columns with 2-3 blanks around the operators; one base in five has string constants of the generator's classes string-control / string-yamlish "
+        "(line breaks, tabs, and texts of several lines whose lines look like YAML to a line-by-line reader: host:port, http://..., 12:30, key: value, - item, # text, block and flow indicators, "
+        "leading / trailing blanks) and definitions called like a definition of another namespace (cross-namespace-names) or like a name a back end writes itself (backend-literal-names); two "
+        "covering closures per run hold EVERY text of the string vocabulary and every accepted cross-namespace name combination (core names and user names); one closure in five is a model-free closure "
         "whose structs / messages have fields of CORE struct / message types (DATA_SET, SUBSCRIBE, CONNECT ...) behind 4-byte members; each is written once and compiled twice in separate interpreters (run 1: cwd = parent of the source "
         "tree, relative input path, absolute output directory, PYTHONHASHSEED=0; run 2: another cwd, absolute input path, relative output "
         "directory, a different PYTHONHASHSEED; real black for a sample, stubbed otherwise, always the same mode in both runs); the "
@@ -342,11 +345,12 @@ def shape_of(program, black):
     cl = tuple(sorted(c for c in program.classes if c in ("needs-padding", "reuse", "alias-field", "struct-array", "multi-path", "cycle", "respell",
                                                           "expr-length", "message-in-message", "const-float", "string-const", "host-id", "reserved-range-dash",
                                                           "core-embedding", "imported-file-options", "root-file-options/consistent",
-                                                          "root-file-options/random", "long-type-text")))
+                                                          "root-file-options/random", "long-type-text", "string-yamlish", "cross-namespace-names")))
     return nt, (program.shape, len(program.files), tuple(sorted(program.options.items())), black, cl)
 
 
-NEW_CLASSES = ("core-embedding", "imported-file-options", "root-file-options/consistent", "root-file-options/random", "long-type-text")
+NEW_CLASSES = ("core-embedding", "imported-file-options", "root-file-options/consistent", "root-file-options/random", "long-type-text",
+               "string-control", "string-yamlish", "cross-namespace-names", "backend-literal-names")
 
 
 def st_closures():
@@ -355,7 +359,9 @@ def st_closures():
     from hypothesis import strategies as st
 
     cross = ("alias-of-imported-struct", "alias-of-imported-struct-field", "struct-contains-message", "string-special", "prefix-names")
-    bases = st.one_of(G.programs(), G.programs(skeleton=True), G.programs(skeleton=True, rich=True), G.programs(skeleton=True, allow=cross))
+    texts = ("string-control", "cross-namespace-names", "backend-literal-names")
+    bases = st.one_of(G.programs(), G.programs(skeleton=True), G.programs(skeleton=True, rich=True), G.programs(skeleton=True, allow=cross),
+                      G.programs(rich=True, allow=texts))
 
     @st.composite
     def _c(draw):
@@ -413,7 +419,7 @@ def shard_programs(seed, n, idx, n_black):
 # ------------------------------------------------------------------------------------------------
 # (a') history: one process compiles a sequence of different closures; each must come out as from a fresh process
 
-SEQ_KW = [dict(), dict(skeleton=True), dict(skeleton=True, rich=True), dict(rich=True),
+SEQ_KW = [dict(), dict(skeleton=True), dict(skeleton=True, rich=True), dict(rich=True), dict(rich=True, allow=("string-control", "cross-namespace-names")),
           dict(skeleton=True, allow=("alias-of-imported-struct", "alias-of-imported-struct-field", "struct-contains-message", "string-special", "prefix-names"))]
 
 
@@ -746,8 +752,29 @@ def shard_core(seed, n_edits):
     return res
 
 
+def shard_covers(seed, idx, n):
+    """Covering closures through (a) + (b): every text of the generator's string vocabulary as a string constant (texts of several lines
+    whose lines look like YAML - host:port, key: value, - item, # text, block / flow indicators -, control characters, quotes, leading and
+    trailing blanks; half of the texts per job) and every accepted way of calling a definition like a definition of another namespace."""
+    res = Result()
+    E = L.Examiner()
+    try:
+        core = bool(idx % 2)
+        for tag, program in (("string-cover", G.build_string_cover_program(core, part=idx, parts=n)), ("cross-namespace-cover", G.build_cross_namespace_cover_program(not core))):
+            hs = 1 + (seed * 17 + idx) % 4000000
+            for key, what in run_program(E, program, False, hs, res):
+                res.add_finding(key, what, {"key": key, "kind": "program", "program": program.to_json(), "black": False, "hashseed": hs})
+            res.evaluations += 1
+            res.count("covering-closures/" + tag)
+            res.shape("cover", tag, core)
+    finally:
+        E.close()
+        L.cleanup()
+    return res
+
+
 def shard(kind, *a):
-    return {"core": shard_core, "programs": shard_programs, "sequences": shard_sequences}[kind](*a)
+    return {"core": shard_core, "programs": shard_programs, "sequences": shard_sequences, "covers": shard_covers}[kind](*a)
 
 
 def run(ctx: RunContext) -> int:
@@ -761,6 +788,8 @@ def run(ctx: RunContext) -> int:
     nseq_jobs = 8 if ctx.quick else 16
     for i in range(nseq_jobs):
         jobs.append(("sequences", derive_seed(ctx.seed, 200 + i), ctx.scale(1, 6), i, 1 if i == 0 else 0))
+    for i in range(2):
+        jobs.append(("covers", derive_seed(ctx.seed, 300 + i), i, 2))
     res = run_shards(shard, jobs)
     return conclude(ctx, res, RULE, ASSUME, t0)
 
